@@ -324,7 +324,7 @@ func rewriteFile(path, rel string, raw []byte, mode string) ([]byte, error) {
 	ast.Inspect(file, func(n ast.Node) bool {
 		if se, ok := n.(*ast.SelectorExpr); ok {
 			if id, ok := se.X.(*ast.Ident); ok && id.Name == "sync" {
-				if se.Sel.Name == "Pool" {
+				if se.Sel.Name == "Pool" || se.Sel.Name == "OnceFunc" || se.Sel.Name == "OnceValue" || se.Sel.Name == "OnceValues" {
 					id.Name = "simrt"
 				} else {
 					usesSync = true
